@@ -168,7 +168,27 @@ def rule_no_implicit_tx_calls(ctx):
     ctx.floor("transaction-control call sites (commit()/rollback())", n, 2)
 
 
+def rule_single_handle(ctx):
+    """C13.f: while a statement is carried out (transform + execute, incl. the bookkeeping statements) no other engine
+    cursor is opened: everything a session does runs on its one engine connection, inside its transaction."""
+    prog = ctx.prog
+    n = 0
+    for kind in all_kinds():
+        for tr in traces(prog, kind):
+            curs = [e for e in tr.path.effects if e[0] == "engine" and e[1] == "cursor"]
+            n += 1
+            ok = not curs
+            ctx.ob("C13.f", f"{kind}: all engine calls go to the session's own handle", ok, "fakesnow/cursor.py")
+            if not ok:
+                site = curs[0][4]
+                ctx.violation("C13.f", "cursor", "FakeSnowflakeCursor._execute", "statement work on another engine cursor", f"fakesnow/cursor.py:{getattr(site, 'lineno', 0)}",
+                              f"while executing {kind} a new engine cursor is opened (`.cursor()`): what runs on it is outside the session's "
+                              f"transaction (survives ROLLBACK, visible to others before COMMIT) and is not seen by the session itself until then")
+    ctx.floor("C13.f traces", n, 40)
+
+
 RULES = [
+    ("C13.f", rule_single_handle, ("quick", "thorough")),
     ("C13.e", rule_no_implicit_tx_calls, ("quick", "thorough")),
     ("C13.a", rule_handle, ("quick", "thorough")),
     ("C13.b", rule_shared_handle, ("quick", "thorough")),
